@@ -8,6 +8,7 @@ import Gittuf.Props.Witness
 import Gittuf.Proofs.Loop
 import Gittuf.Proofs.Entry
 import Gittuf.Proofs.Authorized
+import Gittuf.Proofs.InForce
 namespace Gittuf
 namespace World
 
@@ -186,6 +187,280 @@ theorem C01_full_sound (W : World) (v : Variant) (ref : String) (tip : Option Na
         rename_i u
         cases u; exact hrel
       exact C01_relative_sound W v f l ref h2 h3 this
+  · cases h
+
+/-! ## The states in force are the ones recorded last before the entry -/
+
+theorem range_mem_gittuf (W : World) (first last : Nat) (ref : String) (j : Nat) (e : LogEntry)
+    (h1 : first ≤ j) (h2 : j ≤ last) (he : W.log[j]? = some e) (hu : isUpdater e = true)
+    (hr : isRelevantGittufRef e.ref = true) :
+    j ∈ W.range first last ref := by
+  unfold range
+  rw [List.mem_filter]
+  constructor
+  · rw [List.mem_drop_iff_getElem]
+    refine ⟨j - first, ?_, ?_⟩
+    · simp only [List.length_range]; omega
+    · simp only [List.getElem_range]; omega
+  · simp [he, hu, hr]
+
+theorem range_sorted (W : World) (first last : Nat) (ref : String) :
+    (W.range first last ref).Pairwise (· < ·) := by
+  unfold range
+  exact List.Pairwise.sublist (List.filter_sublist.trans (List.drop_sublist _ _)) List.pairwise_lt_range
+
+theorem range_mem_spec (W : World) (first last : Nat) (ref : String) (j : Nat)
+    (h : j ∈ W.range first last ref) :
+    first ≤ j ∧ j ≤ last ∧ ∃ e, W.log[j]? = some e ∧ isUpdater e = true := by
+  unfold range at h
+  obtain ⟨hd, hp⟩ := List.mem_filter.mp h
+  rw [List.mem_drop_iff_getElem] at hd
+  obtain ⟨i, hi, hget⟩ := hd
+  simp only [List.getElem_range] at hget
+  simp only [List.length_range] at hi
+  refine ⟨by omega, by omega, ?_⟩
+  split at hp
+  · cases hp
+  · rename_i e he
+    simp only [Bool.and_eq_true] at hp
+    exact ⟨e, he, hp.1⟩
+
+/-- the queue of `VerifyRelativeForRef` with the states it starts from satisfies the invariant of
+the exact-state loop theorem -/
+theorem range_SInv (W : World) (first last : Nat) (ref : String) (p0 : Option Policy)
+    (a0 : Option AttState) :
+    SInv W first last p0 a0 first (W.range first last ref) { policy := p0, att := a0 } := by
+  refine ⟨Nat.le_refl _, range_sorted W first last ref, ?_, ?_, ?_, ?_, ?_⟩
+  · intro k hk
+    obtain ⟨h1, h2, _⟩ := range_mem_spec W first last ref k hk
+    exact ⟨h1, h2⟩
+  · intro k hk e he
+    obtain ⟨_, _, e', he', hu⟩ := range_mem_spec W first last ref k hk
+    rw [he] at he'; cases he'
+    simpa [isUpdater] using hu
+  · intro k hk1 hk2 hk3
+    rcases hk3 with hk3 | hk3
+    · unfold isPolK at hk3
+      split at hk3
+      · rename_i e he
+        simp only [Bool.and_eq_true, beq_iff_eq] at hk3
+        refine range_mem_gittuf W first last ref k e hk1 hk2 he (by simp [isUpdater, hk3.1.1]) ?_
+        rw [hk3.1.2]; decide
+      · cases hk3
+    · unfold isAttK at hk3
+      split at hk3
+      · rename_i e he
+        simp only [Bool.and_eq_true, beq_iff_eq] at hk3
+        refine range_mem_gittuf W first last ref k e hk1 hk2 he (by simp [isUpdater, hk3.1.1]) ?_
+        rw [hk3.1.2]; decide
+      · cases hk3
+  · show p0 = _
+    unfold polInForce
+    rw [lastBelow_none]
+    intro k hk
+    unfold isPolK
+    split
+    · have : ¬ first < k := by omega
+      simp [this]
+    · rfl
+  · show a0 = _
+    unfold attInForce
+    rw [lastBelow_none]
+    intro k hk
+    unfold isAttK
+    split
+    · have : ¬ first ≤ k := by omega
+      simp [this]
+    · rfl
+
+/-- **C01, "the policy state immediately preceding the entry"** (every history, range and
+variant): if `VerifyRelativeForRef` accepts, every entry recorded for the (non-gittuf) reference in
+the range was accepted by `verifyEntry` under exactly the policy state and the attestation state
+recorded last before it in the log (inside the range; otherwise the states loaded for the first
+entry of the range) — later or earlier states never legitimize it — or it is revoked, or it is the
+fix of a revoked entry (verified under the states in force at that entry; not verified with defect
+F3), or it is a propagation entry (defect F2). -/
+theorem C01_relative_exact (W : World) (v : Variant) (first last : Nat) (ref : String)
+    (hr : hasPrefix ref gittufPrefix = false)
+    (h : W.verifyRelative v first last ref = .ok ()) :
+    ∃ p0 a0, W.initialPolicy first = .ok p0 ∧ W.initialAtt first = .ok a0 ∧
+      ∀ j e, first ≤ j → j ≤ last → W.log[j]? = some e → isUpdater e = true → e.ref = ref →
+        ExactOK W v first p0 a0 j e := by
+  unfold verifyRelative at h
+  split at h
+  · cases h
+  · rename_i pol hpol
+    split at h
+    · cases h
+    · rename_i att hatt
+      refine ⟨pol, att, hpol, hatt, ?_⟩
+      intro j e hj1 hj2 he hu href
+      exact relLoop_exact_gen W v first last pol att _ _ _ first
+        (range_SInv W first last ref pol att) h j
+        (range_mem W first last ref j e hj1 hj2 he hu href) e he (href ▸ hr)
+
+theorem lastBelow_spec (p : Nat → Bool) :
+    ∀ (j k : Nat), lastBelow p j = some k → k < j ∧ p k = true ∧ ∀ x, k < x → x < j → p x = false := by
+  intro j
+  induction j with
+  | zero => intro k h; simp [lastBelow, below] at h
+  | succ j ih =>
+    intro k h
+    cases hp : p j with
+    | true =>
+      rw [lastBelow_step_pos p j hp] at h
+      cases h
+      exact ⟨by omega, hp, fun x h1 h2 => by omega⟩
+    | false =>
+      rw [lastBelow_step_neg p j hp] at h
+      obtain ⟨h1, h2, h3⟩ := ih k h
+      refine ⟨by omega, h2, ?_⟩
+      intro x hx1 hx2
+      by_cases hxj : x = j
+      · subst hxj; exact hp
+      · exact h3 x hx1 (by omega)
+
+theorem lastBelow_of (p : Nat → Bool) (j k : Nat) (hk : k < j) (hpk : p k = true)
+    (hb : ∀ x, k < x → x < j → p x = false) : lastBelow p j = some k := by
+  rw [lastBelow_run' p (k + 1) j (by omega) (fun x h1 h2 => hb x (by omega) h2)]
+  exact lastBelow_step_pos p k hpk
+
+/-- every entry recorded for the policy reference is a reference entry (no propagation into it) -/
+def PolicyRefEntriesOnly (W : World) : Prop :=
+  ∀ (j : Nat) (e : LogEntry), W.log[j]? = some e → e.ref = policyRef → e.kind = .ref
+
+/-- inside the range, the policy state the walk holds at `j` is the declarative "policy state
+recorded by the latest policy entry strictly before `j`" of Spec/C01 -/
+theorem polInForce_eq_policyBefore (W : World) (first : Nat) (p0 : Option Policy) (j k : Nat) (P : Policy)
+    (hpo : W.PolicyRefEntriesOnly)
+    (hk : lastBelow (W.isPolK first) j = some k)
+    (hP : W.polInForce first p0 j = some P) : W.policyBefore j = some P := by
+  obtain ⟨hkj, hpk, hbetween⟩ := lastBelow_spec _ j k hk
+  -- the unrestricted look-up of the spec finds the same entry
+  have hlat : W.latestFor policyRef j = some k := by
+    unfold latestFor
+    refine lastBelow_of _ j k hkj ?_ ?_
+    · unfold isPolK at hpk
+      split at hpk
+      · rename_i e he
+        simp only [Bool.and_eq_true, beq_iff_eq] at hpk
+        simp [he, isUpdater, hpk.1.1, hpk.1.2]
+      · cases hpk
+    · intro x hx1 hx2
+      have hnot := hbetween x hx1 hx2
+      obtain ⟨hfk, _⟩ : first < k ∧ True := by
+        unfold isPolK at hpk
+        split at hpk
+        · simp only [Bool.and_eq_true, decide_eq_true_eq] at hpk; exact ⟨hpk.2, trivial⟩
+        · cases hpk
+      have hfx : first < x := by omega
+      unfold isPolK at hnot
+      cases he : W.log[x]? with
+      | none => simp
+      | some e =>
+        rw [he] at hnot
+        cases href : (e.ref == policyRef) with
+        | false => simp [href]
+        | true =>
+          have hkind := hpo x e he (by simpa using href)
+          simp [hkind, href, hfx] at hnot
+  unfold policyBefore
+  rw [hlat]
+  simp only [polInForce, hk] at hP
+  cases hl : W.loadRaw k with
+  | error x => rw [hl] at hP; simp at hP
+  | ok Q =>
+    rw [hl] at hP
+    simp only [Option.some.injEq] at hP
+    subst hP
+    unfold loadRaw at hl
+    split at hl
+    · cases hl
+    · rename_i Q' hQ'
+      split at hl
+      · cases hl
+      · cases hl
+        simp [hQ']
+
+/-- every entry recorded for the attestations reference is a reference entry -/
+def AttRefEntriesOnly (W : World) : Prop :=
+  ∀ (j : Nat) (e : LogEntry), W.log[j]? = some e → e.ref = attestationsRef → e.kind = .ref
+
+/-- inside the range, the attestation state the walk holds at `j` is the declarative "attestation
+state recorded by the latest attestation entry strictly before `j`" of Spec/C01 -/
+theorem attInForce_eq_attBefore (W : World) (first : Nat) (a0 : Option AttState) (j k : Nat)
+    (hao : W.AttRefEntriesOnly)
+    (hk : lastBelow (W.isAttK first) j = some k) :
+    W.attInForce first a0 j = W.attBefore j := by
+  obtain ⟨hkj, hpk, hbetween⟩ := lastBelow_spec _ j k hk
+  have hlat : W.latestFor attestationsRef j = some k := by
+    unfold latestFor
+    refine lastBelow_of _ j k hkj ?_ ?_
+    · unfold isAttK at hpk
+      split at hpk
+      · rename_i e he
+        simp only [Bool.and_eq_true, beq_iff_eq] at hpk
+        simp [he, isUpdater, hpk.1.1, hpk.1.2]
+      · cases hpk
+    · intro x hx1 hx2
+      have hnot := hbetween x hx1 hx2
+      obtain ⟨hfk, _⟩ : first ≤ k ∧ True := by
+        unfold isAttK at hpk
+        split at hpk
+        · simp only [Bool.and_eq_true, decide_eq_true_eq] at hpk; exact ⟨hpk.2, trivial⟩
+        · cases hpk
+      have hfx : first ≤ x := by omega
+      unfold isAttK at hnot
+      cases he : W.log[x]? with
+      | none => simp
+      | some e =>
+        rw [he] at hnot
+        cases href : (e.ref == attestationsRef) with
+        | false => simp [href]
+        | true =>
+          have hkind := hao x e he (by simpa using href)
+          simp [hkind, href, hfx] at hnot
+  unfold attBefore
+  rw [hlat]
+  simp only [attInForce, hk, Option.bind_some]
+
+/-- non-vacuity and exactness on a concrete history: policy 0 authorizes key 2, the in-range update
+(entry 2) hands the branch to key 3.  The push by key 3 after the update is accepted, under the
+state recorded by entry 2 and not under the earlier one; the same push by key 2 (authorized only
+by the earlier state) is rejected. -/
+def wFile2 : RuleFile := ⟨"targets", 2, [⟨1002, false, [2], []⟩, ⟨1003, false, [3], []⟩], [⟨"protect-main", ["git:refs/heads/main"], [1003], 1, false⟩, allowRule], [1]⟩
+def wSwap : World := {
+  trees := [[("README", 1)], [("README", 2)]], commits := [⟨[], 0, some 2⟩, ⟨[0], 1, some 3⟩],
+  policies := [wPol, ⟨wRoot, [wFile2]⟩], atts := [],
+  log := [polEntry 0, push 0 2, polEntry 1, push 1 3] }
+
+example :
+    wSwap.verifyRefFull Variant.good mainRef = .ok (some 1) ∧
+    wSwap.polInForce 1 (some wPol) 3 = some ⟨wRoot, [wFile2]⟩ ∧
+    wSwap.policyBefore 3 = some ⟨wRoot, [wFile2]⟩ ∧
+    wSwap.verifyEntry Variant.good ⟨wRoot, [wFile2]⟩ none 3 (push 1 3) = .ok () ∧
+    (wSwap.verifyEntry Variant.good wPol none 3 (push 1 3)).isOk = false ∧
+    ({ wSwap with log := [polEntry 0, push 0 2, polEntry 1, push 1 2] } : World).verifyRefFull Variant.good mainRef
+      = .error .verif := by decide
+
+/-- the same for full verification: the range is [first entry for ref, latest entry for ref] -/
+theorem C01_full_exact (W : World) (v : Variant) (ref : String) (tip : Option Nat)
+    (hr : hasPrefix ref gittufPrefix = false)
+    (h : W.verifyRefFull v ref = .ok tip) :
+    ∃ f l p0 a0, W.firstFor ref = some f ∧ W.latestEntryFor ref = some l ∧
+      W.initialPolicy f = .ok p0 ∧ W.initialAtt f = .ok a0 ∧
+      ∀ j e, f ≤ j → j ≤ l → W.log[j]? = some e → isUpdater e = true → e.ref = ref →
+        ExactOK W v f p0 a0 j e := by
+  unfold verifyRefFull at h
+  split at h
+  · rename_i f l hf hl
+    simp only [bind, Except.bind] at h
+    split at h
+    · cases h
+    · rename_i u hrel
+      have hrel' : W.verifyRelative v f l ref = .ok () := by cases u; exact hrel
+      obtain ⟨p0, a0, h1, h2, h3⟩ := C01_relative_exact W v f l ref hr hrel'
+      exact ⟨f, l, p0, a0, hf, hl, h1, h2, h3⟩
   · cases h
 
 end World
